@@ -84,7 +84,7 @@ class C10(CFGProp):
                     yield ("sub", pa, i, pb, j, mode)
 
     def layers(self, tier, seed):
-        adv = ["natural@subs", "1@subs", "natural@mixedval"]
+        adv = ["natural@subs", "1@subs", "natural@mixedval", "natural@subs2", "1@subs2"]
         two = ["natural@plain", "1@plain"]
         if tier == "quick":
             return [Layer("unary Q3", lambda: self.un_cases("Q3")),
